@@ -77,11 +77,18 @@ impl BuildRecord {
         // The product name is one segment of the request path on every transport
         // ("v1/products/<product>/versions", "http://host/<product>/versions"): with a
         // path, query, fragment or escape character in it no client can address it
-        if self.product.chars().any(|c| matches!(c, '/' | '?' | '#' | '%')) {
+        if self
+            .product
+            .chars()
+            .any(|c| matches!(c, '/' | '\\' | '?' | '#' | '%'))
+            || self.product == "."
+            || self.product == ".."
+        {
             return Err(DatabaseError::InvalidField {
                 field: "product".to_string(),
                 build_id: self.id,
-                reason: "product name contains '/', '?', '#' or '%'".to_string(),
+                reason: "product name is a dot segment or contains '/', '\\', '?', '#' or '%'"
+                    .to_string(),
             });
         }
 
